@@ -62,6 +62,11 @@ class TrackProgram:
                     st += s
                     bits.append(o)
                 out = "?" if "?" in bits else "".join(bits)
+                if r.random() < 0.5:
+                    # the statement form on the whole register (every element prepared with x only, measured together)
+                    flips = [r.random() < 0.5 for _ in range(size)]
+                    st = ["x(%s[%d]);" % (q, e) for e, fl in enumerate(flips) if fl] + ["measure %s;" % q]
+                    out = "".join("1" if fl else "0" for fl in flips)
                 body += ["@tracked qubit[%d] %s;" % (size, q)] + st
                 self.expected["qubit[] " + q] = {"exits": 1, "outcome": out}
             elif place == "field":
